@@ -1,6 +1,7 @@
 import Driver.NameMatch
 import Driver.Trace
 import Driver.Misc
+import Driver.Json
 open Driver
 
 partial def loop (h : IO.FS.Stream) (out : IO.FS.Stream) (f : String → String) : IO Unit := do
@@ -14,7 +15,8 @@ def commands : List (String × (String → String)) := [
   ("namematch", namematch),
   ("trace", trace),
   ("legal", legal),
-  ("nest", nest)
+  ("nest", nest),
+  ("json", json)
 ]
 
 def main (args : List String) : IO UInt32 := do
